@@ -97,44 +97,67 @@ def container_method(E, recv, c, name, args, kwargs, fr, node):
 
 
 def iter_next(E, recv, node, default=NotImplemented):
-    src, pos = E.cell(recv)[1]
+    cc = E.cell(recv)[1]
+    src, pos = cc[0], cc[1]
     n = z3.Length(src.t)
     line = getattr(node, "lineno", 0)
     if default is NotImplemented:
         E.may_raise("StopIteration", pos >= n, line, "next() on an exhausted iterator")
     x = E.unbox(SV(src.t[pos], src.ty.elem))
-    E.setcell(recv, ("iter", (src, z3.simplify(pos + 1))))
+    if len(cc) > 2 and cc[2]:
+        for f in cc[2](pos):
+            E.assume(f)
+    E.setcell(recv, ("iter", (src, z3.simplify(pos + 1)) + tuple(cc[2:])))
     return x
 
 
 def slice_indices(E, sl, length, node):
-    """slice.indices(n) for step None/1/positive-constant/negative-constant with python clamping."""
+    """slice.indices(n) with python's clamping; components may be None, ints or optional symbolic ints."""
     lo, hi, step = sl
     n = z3_int(length)
+    OI = sort(TOpt(TInt))
+
+    def isnone(x):
+        if x is None:
+            return z3.BoolVal(True)
+        if isinstance(x, SV) and isinstance(x.ty, TOpt):
+            return OI.is_none(x.t)
+        return z3.BoolVal(False)
+
+    def val(x):
+        if isinstance(x, SV) and isinstance(x.ty, TOpt):
+            return OI.val(x.t)
+        return z3_int(x)
     if step is None:
-        step = 1
-    if not isinstance(step, int):
-        st = z3_int(step)
-        E.may_raise("ValueError", st == 0, getattr(node, "lineno", 0), "slice step cannot be zero")
-        pos = E.fork(st > 0)
+        st = z3.IntVal(1)
     else:
-        if step == 0:
-            raise PyRaise("ValueError", getattr(node, "lineno", 0))
-        pos = step > 0
+        st = z3.simplify(z3.If(isnone(step), z3.IntVal(1), val(step)))
+    E.may_raise("ValueError", st == 0, getattr(node, "lineno", 0), "slice step cannot be zero")
+    if z3.is_int_value(st):
+        pos = st.as_long() > 0
+    elif E.spec_mode:
+        pos = None
+    else:
+        pos = E.fork(st > 0)
 
     def clamp(x, lower, upper, dflt):
         if x is None:
             return dflt
-        t = z3_int(x)
-        t = z3.If(t < 0, z3.If(n + t < lower, lower, n + t), z3.If(t > upper, upper, t))
-        return z3.simplify(t)
-    if pos:
-        start = clamp(lo, z3.IntVal(0), n, z3.IntVal(0))
-        stop = clamp(hi, z3.IntVal(0), n, n)
+        t = val(x)
+        r = z3.If(t < 0, z3.If(n + t < lower, lower, n + t), z3.If(t > upper, upper, t))
+        return z3.simplify(z3.If(isnone(x), dflt, r))
+    p_start = clamp(lo, z3.IntVal(0), n, z3.IntVal(0))
+    p_stop = clamp(hi, z3.IntVal(0), n, n)
+    n_start = clamp(lo, z3.IntVal(-1), n - 1, n - 1)
+    n_stop = clamp(hi, z3.IntVal(-1), n - 1, z3.IntVal(-1))
+    if pos is True:
+        start, stop = p_start, p_stop
+    elif pos is False:
+        start, stop = n_start, n_stop
     else:
-        start = clamp(lo, z3.IntVal(-1), n - 1, n - 1)
-        stop = clamp(hi, z3.IntVal(-1), n - 1, z3.IntVal(-1))
-    return (SV(start, TInt), SV(stop, TInt), step if isinstance(step, int) else SV(z3_int(step), TInt))
+        start, stop = z3.If(st > 0, p_start, n_start), z3.If(st > 0, p_stop, n_stop)
+    stv = st.as_long() if z3.is_int_value(st) else SV(st, TInt)
+    return (SV(z3.simplify(start), TInt), SV(z3.simplify(stop), TInt), stv)
 
 
 def dict_method(E, recv, c, name, args, kwargs, fr, node):
